@@ -164,8 +164,9 @@ def hier_rows(case):
         U = np.tile(Us, (len(Vs), 1))
     else:
         rs = np.random.RandomState(generic_seed)
-        V = rs.normal(size=(3000, K)) * 1.5
-        U = rs.normal(size=(3000, h)) * 1.5
+        rows_ = 3000 if K * h <= 64 else 300          # the reference holds rows x candidates x h numbers
+        V = rs.normal(size=(rows_, K)) * 1.5
+        U = rs.normal(size=(rows_, h)) * 1.5
     keep = _in_scope(V, U, alpha)
     V, U = V[keep], U[keep]
     v, nt = _check_hier(P, V, U, alpha, M, "mlp_prox_grad", lambda a, b: P.mlp_prox_grad(a, b, alpha, M))
